@@ -16,11 +16,25 @@ typedef sonic_json::GenericDocument<sonic_json::DNode<sonic_json::SimpleAllocato
 
 namespace {
 
+static int g_prior_mode = 0;
+template <class DocT>
+static void clear_pool(DocT&) {}
+template <>
+void clear_pool<PoolDoc>(PoolDoc& d) { d.GetAllocator().Clear(); }
+
 template <class DocT>
 static std::string judge_doc(const std::string& text, const MV* by_construction, const MV& ref, Case& c, Src* s) {
   std::unique_ptr<char[]> buf(new char[text.size() ? text.size() : 1]);
   memcpy(buf.get(), text.data(), text.size());
   DocT doc;
+  // what the document (and its allocator) went through before: nothing / another, longer text / the same followed by
+  // Clear() of the pool (the documented way to recycle a pool) / a failed parse
+  if (g_prior_mode) {
+    std::string prior = g_prior_mode == 3 ? "[" + text.substr(0, text.size() / 2) : "[" + text + ",\"a string before the end\"," + text + " ]";
+    doc.Parse(prior);
+    if (g_prior_mode != 3 && doc.HasParseError()) return "valid text rejected (as part of a larger array): code " + std::to_string((int)doc.GetParseError());
+    if (g_prior_mode == 2) clear_pool(doc);
+  }
   doc.Parse(buf.get(), text.size());
   memset(buf.get(), 0xEE, text.size());  // the document must not depend on the caller's buffer after Parse
   buf.reset();
@@ -135,6 +149,10 @@ static void property(Src& s, Case& c) {
   if (has_dup_keys(v)) c.cls("dup-keys");
   if (long_ws) c.cls("ws-run>=64");
   if (c.counting) c.desc(printable(text, 160));
+  g_prior_mode = (int)s.weighted({6, 2, 2, 1});
+  c.note("prior", std::to_string(g_prior_mode));
+  static const char* pm[] = {"fresh", "reparsed", "reparsed-after-pool-Clear", "reparsed-after-failed-parse"};
+  c.cls(std::string("document:") + pm[g_prior_mode]);
   int which = (int)s.weighted({2, 2, 1});
   c.cls(which == 0 ? "alloc:pool" : which == 1 ? "alloc:freeing" : "alloc:both");
   std::string m = judge(text, &v, c, &s, which);
@@ -144,7 +162,12 @@ static void property(Src& s, Case& c) {
 static void direct(const Fields& f, Case& c) {
   const std::string* t = field(f, "text");
   if (!t) c.fail("replay has no text field");
-  std::string m = judge(*t, nullptr, c, nullptr, 2);
+  std::string m;
+  for (int pr = 0; pr < 4 && m.empty(); pr++) {
+    g_prior_mode = pr;
+    m = judge(*t, nullptr, c, nullptr, 2);
+  }
+  g_prior_mode = 0;
   if (!m.empty()) c.fail(m + " | text=" + printable(*t, 300));
 }
 
